@@ -25,7 +25,40 @@ ASSUMPTIONS = [
 ]
 
 
+EDGE_TEXT = ["é€ß – ™œ", " a\t "]  # cp1252-only characters (0x80..0x9F), leading / trailing white space
+
+
 def bases(t, tier):
+    return _bases(t, tier) + _edge_bases(t)
+
+
+def _edge_bases(t):
+    """Bases whose *values* sit at the edge of a field's domain: text with cp1252-only characters and
+    outer blanks, channel numbers at both ends of the on-disk integer type."""
+    g = gen
+    T, F = True, False
+    if t in gen.RLE_TYPES:
+        chans = {R.T_PLATDATA: [65535, 32768], R.T_EMG: [-1, 32767]}.get(t, [5, 1])
+        out = [g.rle_block(t, 2, [(T, F), (F, T)], labels=list(EDGE_TEXT), chans=chans)]
+        if t == R.T_EMG:
+            out.append(g.rle_block(t, 2, [(T, T), (F, T)], chans=[-32768, 0]))
+        return out
+    if t == R.T_PLATCAL:
+        return [g.platcal([(-32768, g.mk_platinfo(EDGE_TEXT[0], 1)), (32767, g.mk_platinfo(EDGE_TEXT[1], 2))])]
+    if t == R.T_DATA2D:
+        return [g.data2d(2, 1, g.cells_grid(1, 2, (1, 3)), cmap=[32767, 0])]
+    if t == R.T_CALIB:
+        return [g.calib(fmt, [g.mk_cam(fmt, 1), g.mk_cam(fmt, 2)], cmap=[-1, 32767]) for fmt in (1, 2)]
+    if t == R.T_OPT:
+        last = g.mk_chan(2)
+        last["index"] = 2 ** 30
+        return [g.optical([g.mk_chan(0, lens=EDGE_TEXT[0][:8], ctype=EDGE_TEXT[1], name="€"), last])]
+    if t == R.T_EVENTS:
+        return [g.events([g.mk_event(EDGE_TEXT[0], 0, 1), g.mk_event(EDGE_TEXT[1], 1, 3, 3)])]
+    raise ValueError(t)
+
+
+def _bases(t, tier):
     g = gen
     T, F = True, False
     if t in gen.RLE_TYPES:
